@@ -202,7 +202,8 @@ def run_model(obs_lines, jobs=None):
     chunks = [obs_lines[k::jobs] for k in range(jobs)]
     outs = [None] * jobs
     def work(k):
-        p = subprocess.run([TBMODEL], input="\n".join(chunks[k]) + "\n", stdout=subprocess.PIPE, stderr=subprocess.PIPE, text=True)
+        # unlimited stack: the model's recursion depth is linear in the nesting depth of the input
+        p = subprocess.run(["sh", "-c", "ulimit -s unlimited 2>/dev/null; exec " + TBMODEL], input="\n".join(chunks[k]) + "\n", stdout=subprocess.PIPE, stderr=subprocess.PIPE, text=True)
         o = p.stdout.split("\n")
         if o and o[-1] == "":
             o.pop()
